@@ -3,12 +3,12 @@
 
 def jobs(tier):
     q = [dict(name='api-args', harness='c09_api_args.c', entry='main_c09', defines={}, timeout=600, max_steps=3_000_000, hang_is_finding=True,
-              require_tags={'end': 18})]
+              require_tags={'end': 19})]
     return q
 
 
 BOUNDS = {
-    'quick': '18 entry-point groups on a fixed valid 5-node 2-tree sequence; every identifier argument a free int32, '
+    'quick': '19 entry-point groups on a fixed valid 5-node 2-tree sequence; every identifier argument a free int32, '
              'positions integer-valued or NaN/+inf/-inf, list lengths 0-2, buffer sizes 0-16',
     'thorough': 'as quick',
 }
